@@ -314,7 +314,10 @@ class Taint:
             # their upvar cells, and what they return is accounted for below
             def _is_closure_arg(a):
                 pl_ = op_place(a)
-                return pl_ is not None and not pl_["p"] and self.closure_def_of_local[bi].get(pl_["l"]) is not None
+                if pl_ is None or pl_["p"]:
+                    return False
+                # the closure literal itself, or a named closure moved into the call (`let pred = |..| ..; it.find(pred)`)
+                return self.closure_def_of_local[bi].get(pl_["l"]) is not None or "{closure@" in b.local_ty(pl_["l"])
 
             anyt = any(args_t[k] for k in range(len(args_t)) if not _is_closure_arg(c.args[k]))
             if anyt and not (names & NO_PROP):
